@@ -869,6 +869,11 @@ def c06(tier, seed):
         runs = [{}, {"files": [{"path": path, "text": failfile_text([0] * 12)}], "flags": {"failfile": path}, "expect": "replay_prev"}]
         out.append(scenario("c06-found-despite-explicit-%d" % i, {"body": t_threshold("Int64", 1000)}, {"checks": 100, "seed": rng.randrange(1, 1 << 64)},
                             runs=runs, name="TestFoundDespiteExplicit", tag={"explicit": True, "stale": "passing"}))
+    # ... also when that other file happens to have the very name of the persisted one (a copy kept in another directory that went stale)
+    for i in range(2 if tier == "quick" else 16):
+        runs = [{}, {"shadowPrev": ["garbage", failfile_text([0] * 12), failfile_text([9], version="v0.0.1")][i % 3], "expect": "replay_prev"}]
+        out.append(scenario("c06-found-despite-namesake-%d" % i, {"body": t_threshold("Int64", 1000)}, {"checks": 100, "seed": rng.randrange(1, 1 << 64)},
+                            runs=runs, name="TestNamesake", tag={"explicit": True, "stale": "namesake"}))
     # an explicit -rapid.failfile that does not reproduce anything any more (now passing, other version, garbage, missing): a failure the random
     # search then finds is a new one -- it is saved, and replayed first by the next run without flags
     stale_kinds = {"passing": failfile_text([0] * 12), "otherversion": failfile_text([9, 9], version="v0.0.1"), "garbage": "garbage", "missing": None,
@@ -970,6 +975,12 @@ def c17(tier, seed):
         runs = [{}, {"files": files, "expect": "same_as_clean"}]
         out.append(scenario("c17-%d-%s-%d" % (i, pn, nfiles), props[pn](), fl, runs=runs, name=name,
                             tag={"prop": pn, "kinds": [f["path"].split("-")[-1].replace(".fail", "") for f in files]}))
+    # an unusable file given with -rapid.failfile that has the very name of a usable one in the test's directory does not hide it
+    for i in range(3 if tier == "quick" else 30):
+        runs = [{"flags": {"nofailfile": "false"}}, {"shadowPrev": ["garbage", failfile_text([]), failfile_text([9], version="v0.0.1")][i % 3],
+                                                     "flags": {"nofailfile": "false"}, "expect": "replay_prev"}]
+        out.append(scenario("c17-namesake-%d" % i, {"body": t_threshold("Int64", 1000)}, {"checks": 100, "seed": rng.randrange(1, 1 << 64), "shrinktime": "0s"},
+                            runs=runs, name="TestNamesake", tag={"prop": "failing", "kinds": ["explicit namesake"]}))
     # truncations of a real recording of the same property (every few words): each is well-formed and of the current version,
     # and replays to "no longer valid" (or passes); none may change the run
     for i in range(6 if tier == "quick" else 60):
